@@ -296,14 +296,18 @@ fn next_bytes<'s>(
 ) -> Option<&'s [u8]> {
     let offset = bytes.iter().copied().position(|b| {
         if *state == State::Utf8 {
-            true
-        } else {
-            let (next_state, action) = state_change(*state, b);
-            if next_state != State::Anywhere {
-                *state = next_state;
+            if is_utf8_continuation(b) {
+                return true;
             }
-            is_printable_bytes(action, b)
+            // Malformed: the character ends here
+            *utf8parser = Default::default();
+            *state = State::Ground;
         }
+        let (next_state, action) = state_change(*state, b);
+        if next_state != State::Anywhere {
+            *state = next_state;
+        }
+        is_printable_bytes(action, b)
     });
     let (_, next) = bytes.split_at(offset.unwrap_or(bytes.len()));
     *bytes = next;
@@ -311,21 +315,26 @@ fn next_bytes<'s>(
     let offset = if *state == State::Ground || *state == State::Utf8 {
         bytes.iter().copied().position(|b| {
             if *state == State::Utf8 {
-                if utf8parser.add(b) {
-                    *state = State::Ground;
+                let is_lead = *utf8parser == Utf8Parser::default();
+                if is_lead || is_utf8_continuation(b) {
+                    if utf8parser.add(b) {
+                        *state = State::Ground;
+                    }
+                    return false;
                 }
+                // Malformed: the character ends here
+                *utf8parser = Default::default();
+                *state = State::Ground;
+            }
+            let (next_state, action) = state_change(State::Ground, b);
+            if next_state != State::Anywhere {
+                *state = next_state;
+            }
+            if *state == State::Utf8 {
+                utf8parser.add(b);
                 false
             } else {
-                let (next_state, action) = state_change(State::Ground, b);
-                if next_state != State::Anywhere {
-                    *state = next_state;
-                }
-                if *state == State::Utf8 {
-                    utf8parser.add(b);
-                    false
-                } else {
-                    !is_printable_bytes(action, b)
-                }
+                !is_printable_bytes(action, b)
             }
         })
     } else {
